@@ -9,7 +9,8 @@ RULE = (
     'Generated call histories: dispatches and bursts (payload-driven handler durations around the 0.1 s poll period, '
     'nested fire-and-forget/awaited children), time advances around the poll period, wait_until_idle() calls started '
     'as tasks while the history continues, and fault histories: raising handlers, firing event timeouts, rejected '
-    'bursts (queue/backlog limits), small-N evictions, recursion-guard trips (self-recursion to depth 4). Oracle: when '
+    'bursts (queue/backlog limits) incl. events nobody handles and re-dispatch of rejected event objects, small-N '
+    'evictions, recursion-guard trips (self-recursion to depth 4). Oracle: when '
     'a timeout-less call returns, every event accepted by the bus before that instant has left its handler and none is '
     'queued (harness bookkeeping); every call returns within 5 virtual seconds after the harness sees quiescence. '
     'Non-trivial = a call was made while the bus was busy; distinct by canonical JSON.'
@@ -24,6 +25,8 @@ op = st.one_of(
     st.tuples(st.just('idle'), st.sampled_from([None, None, None, 0.05, 0.5])).map(list),
     st.tuples(st.just('idle'), st.none()).map(list),
     st.tuples(st.just('burst'), st.sampled_from([30, 51, 101]), dur, st.sampled_from([0, 60]), st.booleans(), st.just(False), st.none()).map(list),
+    st.tuples(st.just('burstnh'), st.sampled_from([1, 3, 51, 101])).map(list),
+    st.tuples(st.just('retry'), st.sampled_from([1, 3, 60])).map(list),
 )
 scs = st.fixed_dictionaries({'N': st.sampled_from([None, 50, 50, 2, 3]), 'maxdepth': st.sampled_from([2, 2, 2, 4]), 'ops': st.lists(op, min_size=2, max_size=8), 'cap': st.just(400)})
 
